@@ -239,6 +239,55 @@ def check(ctx):
                 rep.analysed(f.module.relpath, f.qualname)
                 n_sites += _check_method(rep, c, defcls, f, meth, cfg, kind, rc)
     rep.floor("backend call sites examined (per executor class)", n_sites, 12)
+
+    # ---------------------------------------------------------------- R-C65-consume
+    rep.rule("R-C65-consume", "map/starmap never iterate over the caller's argument sequences themselves before handing them to the "
+             "backend (a one-shot iterator would arrive exhausted): the sequences flow only into the backend call, zip(*args) or a "
+             "forwarding call")
+    CONSUMERS = {"list", "tuple", "sorted", "sum", "set", "frozenset", "min", "max", "any", "all", "next", "dict", "enumerate", "reversed", "len"}
+    n_cons = 0
+    for c in [base] + execs:
+        for meth in ("map", "starmap"):
+            f = c.own_method(meth)
+            if f is None:
+                continue
+            n_cons += 1
+            a = f.node.args
+            seqs = set()
+            if a.vararg:
+                seqs.add(a.vararg.arg)
+            pos = [x.arg for x in a.args][1:]
+            if meth == "starmap" and len(pos) > 1:
+                seqs.add(pos[1])
+            elem_vars = {}
+            for n in walk_shallow(f.node):
+                if isinstance(n, (ast.For, ast.comprehension)) and isinstance(n.iter, ast.Name) and n.iter.id in seqs and isinstance(n.target, ast.Name):
+                    elem_vars[n.target.id] = n
+            bad = None
+            for n in walk_shallow(f.node):
+                if not isinstance(n, ast.Call):
+                    continue
+                cn = call_name(n)
+                if cn in CONSUMERS:
+                    for arg in n.args:
+                        # element of the vararg consumed:  list(arg) / sum(1 for _ in arg) ...
+                        names = {x.id for x in ast.walk(arg) if isinstance(x, ast.Name)}
+                        if names & set(elem_vars) and cn != "len":
+                            bad = (n, f"an element of `{next(iter(seqs))}` is consumed by {cn}()")
+                        if isinstance(arg, ast.Subscript) and isinstance(arg.value, ast.Name) and arg.value.id in seqs and cn != "len":
+                            bad = (n, f"`{norm(arg)}` is consumed by {cn}()")
+                        if meth == "starmap" and isinstance(arg, ast.Name) and arg.id in seqs and cn not in ("len", "list", "tuple", "zip"):
+                            bad = (n, f"`{arg.id}` is consumed by {cn}()")
+            for ev, loop in elem_vars.items():
+                if isinstance(loop, ast.For):
+                    bad = bad or (loop, f"the method iterates over the elements of `{loop.iter.id}` itself")
+            if bad:
+                rep.refuted("R-C65-consume", f.module.relpath, f.qualname, bad[0],
+                            f"{bad[1]} before the sequences reach the backend: a generator / one-shot iterator argument arrives exhausted and "
+                            "map returns fewer (or no) results than the built-in map")
+            else:
+                rep.proved("R-C65-consume", f"{f.module.relpath}:{f.qualname}", "argument sequences are only forwarded (starred, zipped or passed on)")
+    rep.floor("map/starmap methods checked for premature consumption", n_cons, 3)
     return rep
 
 
@@ -343,8 +392,13 @@ def _check_method(rep, execcls, defcls, f: FuncInfo, meth, cfg, kind, rc):
                 if kwarg and not kw_via_partial and not (kind == "repo" and has_kwsplat):
                     problems.append(f"**{kwarg} never reaches the function")
             if problems:
+                # the finding is identified by the statement AND the branch condition under which it runs: the
+                # condition determines which inputs fail, so widening it is a different violation
+                guard = " and ".join((norm(t) if pol else f"not ({norm(t)})") for t, pol in conds) or "always"
+                text = f"{norm(st)}  [when {guard}]"
                 for p in problems:
-                    rep.refuted("R-C65-forward", rel, qn, st, f"{p} (executor {execcls.name}, backend {kind}.{bname})", executor=execcls.name)
+                    rep.refuted("R-C65-forward", rel, qn, text, f"{p} (executor {execcls.name}, backend {kind}.{bname})",
+                                line=getattr(st, "lineno", 0), executor=execcls.name)
             else:
                 rep.proved("R-C65-forward", where, f"binds as {kind}.{bname} [{bshape}]")
     return count
